@@ -147,6 +147,15 @@ func simCampaign(prop string, enable func(*Monitors), clients bool) vk.Campaign 
 			}
 		}
 		if clients {
+			for k, rs := range Rulesets[:2] {
+				for variant := 0; variant < 4; variant++ {
+					if p.Mine(640 + 4*k + variant) {
+						if c := RunContentEquivocation(variant, rs, vbase.NewRng(p.Seed, "content-equivocation", rs, variant), r, enable); c != nil {
+							finish(c, c.Cfg.String()+" "+c.Cfg.Label, -2500-4*k-variant, "directed")
+						}
+					}
+				}
+			}
 			// the catch-up schedule with a lost block-request reply, with commands entering through real client calls
 			for k, rs := range Rulesets[:2] {
 				for variant := 0; variant < 6; variant++ {
